@@ -133,11 +133,12 @@ EntryLists == { << <<1, NoMd, 0>> >>,
                 << <<3, <<TRUE, FALSE, FALSE>>, 5>> >>,
                 << <<2, NoMd, 3>>, <<3, <<FALSE, TRUE, TRUE>>, 1>> >>,
                 << <<1, <<TRUE, TRUE, TRUE>>, 2>>, <<2, NoMd, 0>>, <<4, NoMd, 6>> >> }
-ExpShapes == {[fmt |-> "ExportedTx", p |-> [ver |-> v, extraLen |-> x, entries |-> es],
-               f |-> ExportedTx(TxHdr(v, IF v = 0 THEN <<>> ELSE TxMd(FALSE, x), Len(es)),
-                                [i \in 1..Len(es) |-> ExpEntry(i, es[i][1], KvMd(es[i][2][1], es[i][2][2], es[i][2][3]), es[i][3])])] :
-                v \in {0, 1}, x \in {-1, 2}, es \in EntryLists}
-ExpShapesOK == {s \in ExpShapes : ~(s.p.ver = 0 /\ s.p.extraLen # -1)}
+\* version-0 transactions (1.1 compatibility mode) carry neither tx metadata nor entry metadata
+EntryListsV0 == { << <<1, NoMd, 0>> >>, << <<2, NoMd, 3>>, <<4, NoMd, 6>> >> }
+ExpShape(v, x, es) == [fmt |-> "ExportedTx", p |-> [ver |-> v, extraLen |-> x, entries |-> es],
+                       f |-> ExportedTx(TxHdr(v, IF v = 0 THEN <<>> ELSE TxMd(FALSE, x), Len(es)),
+                                        [i \in 1..Len(es) |-> ExpEntry(i, es[i][1], KvMd(es[i][2][1], es[i][2][2], es[i][2][3]), es[i][3])])]
+ExpShapesOK == {ExpShape(1, x, es) : x \in {-1, 2}, es \in EntryLists} \cup {ExpShape(0, -1, es) : es \in EntryListsV0}
 
 AppMdShapes == {[fmt |-> "AppMetadata", p |-> [pairs |-> ps], f |-> AppMd(ps)] :
                   ps \in {<<>>, << <<1, 0>> >>, << <<3, 8>> >>, << <<2, 1>>, <<4, 8>> >>, << <<1, 8>>, <<2, 8>>, <<3, 0>> >>}}
